@@ -341,8 +341,9 @@ class EnumDef:
 
 
 class StructDef:
-    def __init__(self, name, fields, out=False):
+    def __init__(self, name, fields, out=False, user_repr=False):
         self.name, self.fields, self.out = name, fields, out   # fields: [(fname, T)]
+        self.user_repr = user_repr                             # the bridge author wrote #[repr(C)] themselves
 
     @property
     def borrowed(self):
@@ -402,7 +403,7 @@ class Module:
             elif isinstance(d, StructDef):
                 lt = "<'a>" if d.borrowed else ""
                 fs = ", ".join("pub %s: %s" % (n, t.rust("'a")) for n, t in d.fields)
-                attr = kerr + ("    #[diplomat::out]\n" if d.out else "")
+                attr = kerr + ("    #[diplomat::out]\n" if d.out else "") + ("    #[repr(C)]\n" if getattr(d, "user_repr", False) else "")
                 out.append("%s    pub struct %s%s { %s }" % (attr, d.name, lt, fs))
             else:
                 out.append("    #[diplomat::opaque]\n    pub struct %s { pub(crate) tag: u32, pub(crate) cell: Box<u8> }" % d.name)
@@ -552,6 +553,7 @@ def m0_core():
     m.add(StructDef("Mixed", [("f", P("f32")), ("en", EnumT("En")), ("g", P("f64")), ("ch", P("DiplomatChar")), ("by", P("DiplomatByte")),
                               ("sz", P("usize")), ("isz", P("isize"))]))
     m.add(StructDef("Inner", [("x", P("i8")), ("y", P("i32"))]))
+    m.add(StructDef("UserRepr", [("a", P("u8")), ("b", P("u64")), ("c", P("u16")), ("d", P("u32"))], user_repr=True))
     m.add(StructDef("Outer", [("p", P("u8")), ("inner", StructT("Inner")), ("q", P("u16")), ("s", EnumT("Small"))]))
     m.add(StructDef("WithOpt", [("a", Opt(P("u8"), "diplomat")), ("b", Opt(P("i64"), "diplomat")), ("c", Opt(EnumT("En"), "diplomat")),
                                 ("d", Opt(StructT("Inner"), "diplomat")), ("e", P("u8"))]))
@@ -576,6 +578,7 @@ def m0_core():
     m.method("Op", "ret_small", None, [], EnumT("Small"))
     m.method("Op", "pad", "ref", [("s", StructT("Pad")), ("t", StructT("Rev"))], StructT("Pad"))
     m.method("Op", "rev", None, [("t", StructT("Rev"))], StructT("Rev"))
+    m.method("Op", "user_repr", None, [("t", StructT("UserRepr"))], StructT("UserRepr"))
     m.method("Op", "mixed", None, [("s", StructT("Mixed"))], StructT("Mixed"))
     m.method("Op", "nested", None, [("s", StructT("Outer")), ("i", StructT("Inner"))], StructT("Outer"))
     m.method("Op", "with_opt", None, [("s", StructT("WithOpt"))], StructT("WithOpt"))
